@@ -5,6 +5,7 @@ sys.path.insert(0, os.path.dirname(os.path.dirname(os.path.abspath(__file__))))
 os.chdir(os.path.dirname(os.path.dirname(os.path.abspath(__file__))))
 from vlib import runner, build
 build.ensure_probe("san", "deck")
+build.ensure_probe("plain", "deck")      # answers "hang or only slow under the sanitizer?"
 os.environ["VERIF_NOBUILD"] = "1"
 n = int(sys.argv[1]) if len(sys.argv) > 1 else 2000
 rounds = int(sys.argv[2]) if len(sys.argv) > 2 else 5
